@@ -45,9 +45,34 @@ func init() {
 func expand15(t *testing.T, seed uint64, tier string) []*core.Plan {
 	plans := brk.ExpandC15(t, seed, tier)
 	if seed%3 == 2 {
+		r := core.NewRand(core.Derive(seed, "e2e15"))
 		for _, p := range plans {
 			p.SetKnob("e2e", 1)
 			p.SetKnob("gate", 0)
+			if r.Chance(1, 2) {
+				// publishers keep their sessions too and are cut and resumed; their
+				// packet id counters start near the 16-bit wrap in some runs
+				p.SetKnob("ppersist", 1)
+				p.SetKnob("idstart", r.Pick(1, 65533, 65534, 65535))
+				np := p.Knob("pubs", 1)
+				var items []core.Item
+				off := map[int]bool{}
+				for _, it := range p.Items {
+					items = append(items, it)
+					if it.K != "pub" {
+						continue
+					}
+					switch q := 1 + r.Intn(np); {
+					case r.Chance(1, 6) && !off[q]:
+						items = append(items, core.Item{K: "pcut", P: q})
+						off[q] = true
+					case r.Chance(1, 4) && off[q]:
+						items = append(items, core.Item{K: "presume", P: q})
+						off[q] = false
+					}
+				}
+				p.Items = items
+			}
 		}
 	}
 	return plans
@@ -150,11 +175,15 @@ type dialer struct {
 	w        *brk.World
 	last     *brk.RawLink
 	lastConn *cliConn
+	forParty *party // who is dialling (set by connect)
 }
 
 func (d *dialer) Dial(string) (transport.Conn, error) {
 	d.last = d.w.DialIn()
 	d.lastConn = &cliConn{Conn: transport.NewNetConn(d.last.Link.A), rl: d.last, res: d.w.Res}
+	if d.forParty != nil {
+		d.lastConn.log, d.lastConn.connNo = &d.forParty.sent, d.forParty.conns
+	}
 	return d.lastConn, nil
 }
 
@@ -170,10 +199,30 @@ type cliConn struct {
 	sends  int
 	failAt int
 	post   bool
+	log    *[]sendRec // the owning party's record of what its clients handed to connections
+	connNo int
+}
+
+type sendRec struct {
+	conn int
+	kind packet.Type
+	id   packet.ID
+	dup  bool
+	tag  int
 }
 
 func (c *cliConn) Send(pkt packet.Generic, async bool) error {
 	c.sends++
+	if c.log != nil {
+		switch q := pkt.(type) {
+		case *packet.Publish:
+			if q.Message.QOS > 0 {
+				*c.log = append(*c.log, sendRec{c.connNo, packet.PUBLISH, q.ID, q.Dup, brk.TagOf(q.Message.Payload)})
+			}
+		case *packet.Pubrel:
+			*c.log = append(*c.log, sendRec{c.connNo, packet.PUBREL, q.ID, false, -1})
+		}
+	}
 	if c.failAt != c.sends {
 		return c.Conn.Send(pkt, async)
 	}
@@ -212,6 +261,7 @@ type party struct {
 	conns int
 	cbs   []cbRec
 	subs  []packet.Subscription
+	sent  []sendRec
 }
 
 var filters = []string{"o/#", "o/a", "o/+"}
@@ -258,6 +308,7 @@ func runE2E(t *testing.T, p *core.Plan) *core.Result {
 			cc.Dialer = d
 			cc.CleanSession = s.clean
 			cc.KeepAlive = "0s"
+			d.forParty = s
 			if _, err := c.Connect(cc); err != nil {
 				s.dead = true
 				s.cur = nil
@@ -277,6 +328,9 @@ func runE2E(t *testing.T, p *core.Plan) *core.Result {
 			q := &party{id: fmt.Sprintf("p%d", i), slot: i, clean: !ppersist, links: map[int]bool{}}
 			if ppersist {
 				q.sess = session.NewMemorySession()
+				if st := p.Knob("idstart", 1); st != 1 {
+					q.sess.Counter = session.NewIDCounterWithNext(packet.ID(st))
+				}
 			}
 			pubs[i] = q
 			connect(q)
@@ -516,6 +570,17 @@ func (j *judgeCtx) view(s *party, tag int) brokerView {
 func (j *judgeCtx) judge() {
 	res, prop := j.res, j.prop
 	n := 0
+	// a message that its publisher had to retransmit may reach a subscriber for
+	// the first time as the duplicate (the first copy was lost with that
+	// subscriber's connection): only first transmissions are ordered
+	retransmitted := map[int]bool{}
+	for _, q := range j.pubs {
+		for _, r := range q.sent {
+			if r.kind == packet.PUBLISH && r.dup {
+				retransmitted[r.tag] = true
+			}
+		}
+	}
 	for _, s := range j.subs {
 		last := map[string]int{}
 		seen := map[int]int{}
@@ -524,7 +589,7 @@ func (j *judgeCtx) judge() {
 				continue
 			}
 			seen[cb.tag]++
-			if seen[cb.tag] > 1 {
+			if seen[cb.tag] > 1 || retransmitted[cb.tag] {
 				continue
 			}
 			key := fmt.Sprintf("p%d/pq%d/dq%d", cb.tag/100000, j.pubQoS[cb.tag], cb.qos)
@@ -554,6 +619,42 @@ func (j *judgeCtx) judge() {
 				res.Violate("C08", "C08.e2e-qos2-new-once", "twice", fmt.Sprintf("the broker sent QoS 2 message #%d to subscriber s%d %d times as a new (non-DUP) PUBLISH; its application saw it %d times", tag, s.slot, v.newSends, q2))
 			case v.newSends <= 1 && prop == "C10":
 				res.Violate("C10", "C10.e2e-exactly-once", "twice", fmt.Sprintf("subscriber s%d's client passed QoS 2 message #%d to the application %d times although the broker sent it as a new PUBLISH %d time(s)", s.slot, tag, q2, v.newSends))
+			}
+		}
+	}
+	// the publishing clients' own retransmissions after a resume leave in the
+	// order of the original transmission (ids may have wrapped in between)
+	if prop == "C15" {
+		for _, q := range j.pubs {
+			first := map[packet.ID]int{} // id -> index of the first transmission of the flow using it
+			started := map[int]bool{}    // connection -> a new (non-DUP) publish has been sent on it
+			lastIdx := map[int]int{}
+			dupOn := map[string]bool{} // "conn/id": a DUP PUBLISH with that id went out on that connection
+			for i, r := range q.sent {
+				// a PUBREL is a retransmission only if it was not preceded, on the
+				// same connection, by the (retransmitted) PUBLISH it answers for
+				resend := (r.kind == packet.PUBLISH && r.dup) ||
+					(r.kind == packet.PUBREL && !started[r.conn] && r.conn > 1 && !dupOn[fmt.Sprintf("%d/%d", r.conn, r.id)])
+				if r.kind == packet.PUBLISH && r.dup {
+					dupOn[fmt.Sprintf("%d/%d", r.conn, r.id)] = true
+				}
+				if r.kind == packet.PUBLISH && !r.dup {
+					first[r.id] = i
+					started[r.conn] = true
+					continue
+				}
+				if !resend || started[r.conn] {
+					continue
+				}
+				orig, ok := first[r.id]
+				if !ok {
+					continue
+				}
+				if prev, seen := lastIdx[r.conn]; seen && orig < prev {
+					res.Violate("C15", "C15.e2e-client-resend-order", "reordered", fmt.Sprintf("publisher %s, connection %d: retransmitted %s(id %d), first sent as its transmission #%d, after a packet first sent as #%d", q.id, r.conn, r.kind, r.id, orig, prev))
+				}
+				lastIdx[r.conn] = orig
+				res.Count("e2e_client_retransmissions_ordered", 1)
 			}
 		}
 	}
